@@ -616,7 +616,9 @@ impl<'a, 'b> QGen<'a, 'b> {
         let mut out_scope = Scope::default();
         let mut distinct_ok = true;
         for i in 0..n_items {
-            let alias = format!("c{i}");
+            // WITH and RETURN use different alias families: an alias that shadows a variable
+            // still in scope makes `ORDER BY <name>` ambiguous between the two
+            let alias = if is_with { format!("w{i}") } else { format!("c{i}") };
             if with_agg && (i == n_items - 1 || self.t.chance(1, 3)) {
                 let (e, m, ord) = self.agg_item(scope);
                 items.push(Item { expr: e, alias: Some(alias.clone()) });
